@@ -33,7 +33,7 @@ VARIABLES
     height,     \* current block height
     now,        \* current block time (seconds)
     phase,      \* "deliver" | "expire" | "start"
-    params,     \* [maxTimeout, multiple, minDeposit, tax, slash, refundDelay]
+    params,     \* [maxTimeout, multiple, minDeposit, tax, slash, refundDelay, lax]
     bal,        \* account -> balance (ordinary accounts and "DEP","REQ","TAX")
     supply,     \* total supply of the base denomination
     defs,       \* service name -> [author, dg]
@@ -514,6 +514,23 @@ BankSend(a, b, n) ==
     /\ bal' = Move(bal, a, b, n)
     /\ cb' = <<>>
     /\ UNCHANGED <<height, now, phase, params, supply, defs, bind, powner, oprov, obind, waddr,
+                   nctx, ctx, newQ, newQH, expQ, expQH, req, actId, actBind, resp, vol,
+                   earned, oearned>>
+
+-----------------------------------------------------------------------------
+(* Environment: governance replaces the module parameters between transactions (x/params).  *)
+(* Nothing else changes: contexts keep their timeouts, requests their expiry heights,        *)
+(* bindings their deposits.  params.lax remembers that the minimum collateral was raised in  *)
+(* this history, after which bindings made earlier may lawfully sit below it.                *)
+
+CanSetParams(p) == phase = "deliver"
+
+SetParams(p) ==
+    /\ CanSetParams(p)
+    /\ params' = [p EXCEPT !.lax = params.lax \/ p.minDeposit > params.minDeposit
+                                               \/ p.multiple > params.multiple]
+    /\ cb' = <<>>
+    /\ UNCHANGED <<height, now, phase, bal, supply, defs, bind, powner, oprov, obind, waddr,
                    nctx, ctx, newQ, newQH, expQ, expQH, req, actId, actBind, resp, vol,
                    earned, oearned>>
 
